@@ -220,3 +220,6 @@ def transports_setting(fl: int, ti: int, ws_first: bool) -> str:
     post: _ == ''
     """
     return verdict(untraced(_transports, fl, ti, ws_first))
+
+
+from vf.validate.stubs import ALL as VALIDATE  # noqa: E402  (stub-vs-real conformance, run before the obligations)
